@@ -15,6 +15,10 @@ ASSUMPTIONS = [
 ]
 
 
+def prepare():
+    frontend.dump(C20_ROOTS, tag='c20', harness='c20-harness')
+
+
 def jobs(tier, seed):
     return ['kernel-rasn', 'kernel-ts', 'native']
 
